@@ -111,6 +111,10 @@ def strip_lean_comments(src):
 
 FORBIDDEN = re.compile(r"\b(sorry|admit|native_decide|bv_decide|implemented_by|unsafe)\b|^\s*axiom\s|maxHeartbeats\s+0\b", re.M)
 
+# the one designated native_decide (weight-4 CRC enumeration, used by C16_reject_flips only); whether a
+# theorem depends on it is decided per theorem by the `#print axioms` audit, not by this grep
+NATIVE_ALLOWED_FILES = ("Uflow/Lemmas/CrcHD4.lean",)
+
 def grep_forbidden(allow_native_in=()):
     """Scan all Lean sources (comments stripped) for forbidden constructs."""
     hits = []
@@ -123,7 +127,7 @@ def grep_forbidden(allow_native_in=()):
             src = strip_lean_comments(open(path).read())
             for m in FORBIDDEN.finditer(src):
                 tok = m.group(0).strip()
-                if tok == "native_decide" and rel in allow_native_in:
+                if tok == "native_decide" and (rel in allow_native_in or rel in NATIVE_ALLOWED_FILES):
                     continue
                 hits.append("%s: %s" % (rel, tok))
     return hits
@@ -348,6 +352,9 @@ class Report:
     def __init__(self, prop, tier, seed):
         self.prop = prop; self.tier = tier; self.seed = seed
         self.t0 = time.time()
+        for fn in os.listdir(REPLAYS):
+            if fn.startswith(prop + "_") and fn.endswith(".json"):
+                os.remove(os.path.join(REPLAYS, fn))
         self.violations = []     # (replay path, suffix)
         self.known_seen = []
         self.coverage = {}
